@@ -10,7 +10,7 @@
 //     succeeded occurs in the log, after a series record for its ref carrying its labels;
 //   - an append with t <= (largest committed timestamp of the series) - OutOfOrderTimeWindow fails;
 //   - after VerifTruncate(mint) and after a restart, every such sample with t >= every mint used so
-//     far still occurs (same placement rule);
+//     far still occurs (containment; placement after truncation is C15's subject);
 //   - data of rolled-back appenders never occurs;
 //   - Querier / ChunkQuerier / ExemplarQuerier fail with ErrUnsupported.
 package c48
@@ -54,7 +54,7 @@ func init() {
 		Level:     "exploration",
 		Technique: "runtime monitor with a reference WAL model: generated agent.DB histories, WAL decoded after every step and compared with the set of accepted samples",
 		LevelText: "Each case drives a real agent.DB (32 KiB segments, all three WAL compressions, both checkpoint implementations, out-of-order windows 0..1e6, 1..16 stripes, ST storage / ST zero injection on and off) through a generated history of appender sessions (Appender and AppenderV2; floats incl. hostile values and stale markers, integer/float/custom-bucket histograms, exemplars, V1 start-timestamp zero samples; in-order, boundary and out-of-order timestamps), commits, rollbacks, appenders left open across other sessions and truncations, VerifTruncate(mint) with mint at the sample-time boundaries (series GC, checkpoint, segment removal) and restarts. After every step the log is decoded in replay order with the exported wlog/record API. The reference, written from the statement: the multiset of samples whose append returned success in an appender whose Commit returned nil must occur in the log behind a series record for the same ref with the appended label set; an append not newer than the series' largest committed timestamp minus the window must fail; after truncation and after restart all accepted samples at or after the largest truncation time used so far must still occur; values unique to rolled-back appenders must never occur; the three querier constructors must return ErrUnsupported. Held on the observed histories only.",
-		LevelNote: "Reductions (oracle weaker than the plan, never stronger than the statement): acceptance of in-window samples is not demanded (only counted); extra log entries (ST zero samples, the per-series timestamp entries of the in-memory checkpoint) are allowed; exemplars are required after commit and until a checkpoint covers their segment (the statement's truncation clause names samples only); V2 exemplars count as accepted only when the call returned no partial error, the sample was not a stale marker and the exemplar is not a generated duplicate; the rejection obligation of a series is dropped when a truncation time exceeds its last committed timestamp (the series may have been garbage collected) and is only raised by samples appended and committed without a truncation in between. Trusted: wlog.Reader / record.Decoder as the log observer (C13/C14 check them). The running background truncation loop is not exercised (TruncateFrequency 2h); truncation runs through the VerifTruncate export.",
+		LevelNote: "Reductions (oracle weaker than the plan, never stronger than the statement): the placement behind a series record (with the appended labels) is demanded when the entry is logged, i.e. at its commit; after truncation and restart the statement's clause is containment, so an entry that a checkpoint left without its series record still counts as contained (that defect class is reported by C15, here only its consequence for the rejection rule); acceptance of in-window samples is not demanded (only counted); extra log entries (ST zero samples, the per-series timestamp entries of the in-memory checkpoint) are allowed; exemplars are required after commit and until a checkpoint covers their segment (the statement's truncation clause names samples only); V2 exemplars count as accepted only when the call returned no partial error, the sample was not a stale marker and the exemplar is not a generated duplicate; the rejection obligation of a series is dropped when a truncation time exceeds its last committed timestamp (the series may have been garbage collected) and is only raised by samples appended and committed without a truncation in between. Trusted: wlog.Reader / record.Decoder as the log observer (C13/C14 check them). The running background truncation loop is not exercised (TruncateFrequency 2h); truncation runs through the VerifTruncate export.",
 		DesignRef: "DESIGN.md §5 C48",
 		Rule:      "case = one history of 25-70 steps over 4-12 label sets; non-trivial iff at least one committed accepted sample was verified in the log, at least one truncation created a checkpoint, and a restart after a checkpoint re-verified at least one required sample; distinct by the hash of the configuration and the step trace",
 		Assumptions: []string{
